@@ -602,6 +602,59 @@ Definition restart (P : params) (s : state) : state :=
        events := events s; trap := trap s |}
   end.
 
+(* ---------- handleHeadersMsg with a failing rollback of the block header store ----------
+   While the handler switches to a heavier branch it removes the displaced
+   headers one by one (rollBackToHeight).  The k-th BlockHeaders.RollbackLastBlock
+   of that rollback fails the way the store fails when the header file cannot
+   be truncated: the index has gone back, the bytes are still in the file.
+   rollBackToHeight returns the error, handleHeadersMsg PANICS ("Rollback
+   failed"): the process dies and is started again; the stores' start-up
+   recovery cuts the file back to the index and a new block manager is built
+   (restart).  What the dead process had done: k - 1 blocks removed and
+   announced, the k-th removed from both stores (the filter entry first) but
+   NOT announced.  A rollback that needs fewer than k calls is not affected.
+   (Only the rollback of the reorganisation path is modelled with a fault;
+   the rollback after a checkpoint mismatch logs the error and goes on.) *)
+Definition pop_event (s : state) : state :=
+  {| chain := chain s; fchain := fchain s; hl := hl s; syncPeer := syncPeer s; cands := cands s;
+     nextCp := nextCp s; peers := peers s; ftipVar := ftipVar s;
+     events := take (length (events s) - 1) (events s); trap := trap s |}.
+
+Definition crash_state (P : params) (p : Z) (s : state) (k : Z) : state :=
+  restart P (pop_event (roll_back_to (tip_height s - k) (set_sync (Some p) s))).
+
+Definition step_header_r (P : params) (now : Z) (p : Z) (k : Z) (a : acc) (bh : header) (rest : list header) : outcome :=
+  match reorg_point P now p a bh rest with
+  | Some (_, backH) =>
+    if (1 <=? k) && (k <=? tip_height (a_s a) - backH) then Return (crash_state P p (a_s a) k)
+    else step_header P now p a bh rest
+  | None => step_header P now p a bh rest
+  end.
+
+Fixpoint loop_r (P : params) (now : Z) (p : Z) (k : Z) (a : acc) (hs : list header) : outcome :=
+  match hs with
+  | [] => Break a
+  | bh :: rest =>
+    match step_header_r P now p k a bh rest with
+    | Continue a' => loop_r P now p k a' rest
+    | o => o
+    end
+  end.
+
+Definition handle_headers_r (P : params) (now : Z) (p : Z) (hs : list header) (k : Z) (s : state) : state :=
+  match hs with
+  | [] => s
+  | _ =>
+    if negb (headers_connected hs) then disconnect p s else
+    resync
+    match loop_r P now p k {| a_s := s; a_batch := []; a_recvcp := false; a_finalh := 0 |} hs with
+    | Return s' => s'
+    | Continue a | Break a =>
+      let s1 := write_headers (a_batch a) (a_s a) in
+      if a_recvcp a then set_cp (find_next_cp P (a_finalh a)) s1 else s1
+    end
+  end.
+
 (* ---------- operations ---------- *)
 Inductive op :=
 | OHeaders (p : Z) (now : Z) (hs : list header)
@@ -611,7 +664,8 @@ Inductive op :=
 | OWriteCF (prev : Z) (fs : list Z) (stop : Z)
 | ORollback (h : Z)
 | ORestart
-| OHeadersF (p : Z) (now : Z) (hs : list header) (k : Z).
+| OHeadersF (p : Z) (now : Z) (hs : list header) (k : Z)
+| OHeadersR (p : Z) (now : Z) (hs : list header) (k : Z).
 
 Definition step (P : params) (s : state) (o : op) : state :=
   match o with
@@ -624,6 +678,7 @@ Definition step (P : params) (s : state) (o : op) : state :=
   | ORollback h => roll_back_to h s
   | ORestart => restart P s
   | OHeadersF p now hs k => handle_headers_f P now p hs k s
+  | OHeadersR p now hs k => handle_headers_r P now p hs k s
   end.
 
 Definition init_state (P : params) (gfh : Z) : state :=
